@@ -26,7 +26,7 @@ cdef extern from "src_numerics.c":
             float *anomaly, int n_samples, int N, int n_bins, double scaling,
             double range_min, long *symbolic, long *hist, long *hist2d,
             float *mi)
-    void _spearman_corr(int m, int tmax, bint *final_mask,
+    void _spearman_corr(int m, int tmax, MASK_t *final_mask,
             float *time_series_ranked, float *spearman_rho)
 
 
@@ -67,7 +67,7 @@ def spearman_corr(int m, int tmax,
         (m, m), dtype=FIELD)
 
     _spearman_corr(m, tmax,
-            <bint*> cnp.PyArray_DATA(final_mask),
+            <MASK_t*> cnp.PyArray_DATA(final_mask),
             <FIELD_t*> cnp.PyArray_DATA(time_series_ranked),
             <FIELD_t*> cnp.PyArray_DATA(spearman_rho))
 
